@@ -246,7 +246,10 @@ Definition run_bytes (c : scfg) (o : oracles) (w : str) : list item * list entry
     STARTTLS line is gone, it is never executed (no "STARTTLS injection").  The input is the plaintext the client
     sent before its handshake followed by what it sent under TLS; [tl] is the length of the latter.  After the step
     that answers STARTTLS with 220, everything but the last [tl] bytes of the remaining input is dropped.  (If no
-    STARTTLS is accepted the client of the correspondence check goes on in plaintext and nothing is dropped.) *)
+    STARTTLS is accepted the client of the correspondence check goes on in plaintext and nothing is dropped.)
+    Scope: the plaintext is taken to have been in the session's read buffer (4 KiB) when the connection was wrapped;
+    plaintext still unread at that moment is consumed by the handshake as garbage and the session ends - outside this
+    model. *)
 Definition accepted_starttls (it : item) (r : list rline) : bool :=
   match it, r with
   | L Starttls, [(220%Z, false)] => true
